@@ -33,7 +33,8 @@ pieces that exist only here - the policy over a *tablet* replica set and the per
                                     model (`pickSteps` / `fallbackGroups` of the same request without token, first three
                                     entries dropped).
 * `PreparedM`, `ExecM`, `sessionRoutingInfo`, `sessionFirstAttempt`
-                                  ← `Session::execute` (`session.rs:1775-1816`): token (C03 model), table spec, LWT flag,
+                                  ← `Session::execute` (`session.rs:1775-1816`) and, as `pagerRoutingInfo`, the second copy of the
+                                    literal in `execute_iter` (`pager.rs:949-966`): token (C03 model), table spec, LWT flag,
                                     consistency, location preference → `RoutingInfo` → plan → first attempt.
 * `routePlan`                     ← `Plan::new(policy, routing_info, cluster)` (`session.rs:2165-2173`): tablets first
                                     (`tablets_for_table(table_spec)` is `Some` - also with an EMPTY tablet list: the table
@@ -323,6 +324,19 @@ structure Attempt where
 /-- First `Plan::next()`: the head of the plan, a missing shard replaced by `random_range(0..nr_shards)` (`draw`). -/
 def firstAttempt (rc : RCluster) (plan : List Target) (draw : Nat) : Option Attempt :=
   plan.head?.map (fun t => ⟨t.1, t.2.getD (draw % ((rc.sharder t.1.id).map (·.nr)).getD 1)⟩)
+
+/-- `Session::execute_iter` → `QueryPager::new_for_prepared_statement` (`pager.rs:949-966`) builds its OWN `RoutingInfo`
+for every page request: the same six fields from the same sources (`extract_partition_key_and_calculate_token`,
+`get_table_spec`, `is_confirmed_lwt`, the executor's consistencies, `session.get_node_location_preference()`); a token
+error makes the pager constructor fail (`NextPageError::PartitionKeyError`). Written out a second time, as the code is. -/
+def pagerRoutingInfo (p : PreparedM) (values : List PartitionKey.RawValue) (ex : ExecM) :
+    Except PartitionKey.TokenErr RRequest :=
+  match PartitionKey.boundCalculateToken p.cdc p.pk values with
+  | .error e => .error e
+  | .ok token =>
+    .ok { rq := { consistency := ex.consistency, token := token.map Int64.toInt, table := p.table.map (·.1),
+                  confirmedLwt := p.lwt, pref := ex.pref },
+          tbl := (p.table.map (·.2)).getD 0 }
 
 /-- The first attempt of `Session::execute(prepared, values)`: routing info, `Plan::new`, first target, shard fill-in.
 `none` = nothing is sent (token error, or an empty plan). -/
